@@ -342,6 +342,36 @@ func genC05(c *Ctx) {
 		out := c.Emit("search " + s.tok() + " " + encPos(p))
 		tagSearchOut(c, "A", out)
 	}
+	// A2: the engine's BUILT-IN evaluator (Evaluate left nil, as `taktician analyze`, serve and the playtak bots run it) on
+	// one engine reused over the same board at different move numbers (the terminal bonus depends on the move number, the
+	// position hash does not) and over the positions of a game line; exact against the model with the default weights
+	bud = newBudget(c, 45000, 12000000)
+	for k := 0; !bud.spent() && k < 4000; k++ {
+		size := 3 + r.Intn(3)
+		s := exactCfg(c, size, true)
+		s.ev = "nil"
+		s.me = 0
+		s.depth = 1 + r.Intn(map[int]int{3: 3, 4: 2, 5: 2}[size])
+		line := liveLine(r, size)
+		p := line[r.Intn(len(line))]
+		if cost := dryCost(s, p); cost > opCap/4 || !bud.take(4*cost) {
+			c.Count("A2.skipped-too-big")
+			continue
+		}
+		c.Emit(fmt.Sprintf("case C05nil-%d-%d", c.Shard, k))
+		c.Emit("eng A " + s.tok())
+		raw := p.VerifRaw()
+		for j, dply := range []int{0, 2, 6, 0} {
+			q := raw
+			q.Move = raw.Move + dply
+			if j == 3 {
+				q = line[r.Intn(len(line))].VerifRaw()
+			}
+			out := c.Emit("an A " + encPos(tak.VerifFromRaw(q)))
+			tagSearchOut(c, "A2", out)
+		}
+		c.Count("A2.builtin-evaluator-session")
+	}
 	// B: value / depth / first move against exhaustive negamax, sort on and off, symmetry de-duplication
 	bud = newBudget(c, 1800000, 80000000)
 	for k := 0; !bud.spent() && k < 20000; k++ {
